@@ -137,3 +137,18 @@ pub fn checker_faults(x: &Value) -> Value {
         kind: f["kind"].as_str().unwrap().into(), ty: f["ty"].as_str().unwrap().into(), field: f["field"].as_str().unwrap().into(), mode: f["mode"].as_str().unwrap().into() }))).collect();
     json!({"id": x["id"], "t": "ok", "clean": clean, "results": results})
 }
+
+/// C26: run the stub generator on a schema into <dir>/src (under catch_unwind).
+pub fn stubgen(x: &Value) -> Value {
+    let sdl = x["sdl"].as_str().unwrap().to_string();
+    let dir = std::path::PathBuf::from(x["dir"].as_str().unwrap());
+    let src = dir.join("src");
+    let _ = std::fs::remove_dir_all(&dir);
+    std::fs::create_dir_all(&src).unwrap();
+    let r = panic::catch_unwind(AssertUnwindSafe(|| trustfall_stubgen::generate_rust_stub(&sdl, &src)));
+    match r {
+        Ok(Ok(())) => json!({"id": x["id"], "t": "generated"}),
+        Ok(Err(e)) => json!({"id": x["id"], "t": "err", "err": format!("{e:?}").chars().take(400).collect::<String>()}),
+        Err(p) => json!({"id": x["id"], "t": "panic", "err": panic_msg(p).chars().take(400).collect::<String>()}),
+    }
+}
